@@ -502,6 +502,7 @@ func (x *Exec) verifyContract(ct *Contract) (err error) {
 			e2 := env.child()
 			e2.old = entry
 			e2.oldEnv = entryEnv
+			e2.frame = o.fr // Go locals of the verified function are visible after the parameters
 			bindResults(e2, fn, o.vals)
 			finals = append(finals, finalState{o.st, e2})
 		}
@@ -657,7 +658,7 @@ func (x *Exec) evalLetFork(st *State, env *Env, e Expr) []specOut {
 		if _, bound := env.lookup(id.name); !bound {
 			_, isSpec := x.specs[id.name]
 			switch id.name {
-			case "sq", "abs", "min", "max", "sqrt", "ite", "real", "floor", "len", "old", "pre", "isnil", "sin", "cos", "nsent", "sent", "samecell", "maphas", "mapval":
+			case "sq", "abs", "min", "max", "sqrt", "ite", "real", "floor", "len", "old", "pre", "isnil", "sin", "cos", "nsent", "sent", "samecell", "maphas", "mapval", "nev", "evarg", "evbefore":
 				isSpec = true
 			}
 			if isSpec {
